@@ -181,6 +181,11 @@ let rec gen (r : Rng.t) (m : mode) (e : env) (t : ty) (size : int) : src =
     if small then (match Rng.int r 4 with
         | 0 -> SInt | 1 -> SBool | 2 -> SType
         | _ -> (match e.aliases with [] -> SInt | al -> SVar (fst (Rng.pick r al))))
+    else if m.holes && Rng.chance r 1 12 then
+      (* a hole under a binder of the type itself (`(a : type) -> _`, `int -> _`): when such an annotation is looked up
+         further in, the hole is raised together with the term that contains it (recorded finding D19) *)
+      (if Rng.bool r then SArrow (g Type (size / 2), SHole)
+       else let x = fresh_name e "t" in SPi (x, false, g Type (size / 2), SHole))
     else begin
       let universes = List.filter (fun (_, t') -> t' = Type) e.aliases in
       match Rng.int r 10 with
